@@ -744,8 +744,9 @@ class HolzapfelOgden(_HyperElastic):
         K = self.K
         Mu1 = self.Mu1
         Mu2 = self.Mu2
-        T1 = self.T1
-        T2 = self.T2
+        # (unit vectors: the attributes can be assigned after the construction)
+        T1 = Normalize(self.T1)
+        T2 = Normalize(self.T2)
         ks = self.__ks
 
         I1 = hyperElasticState.Compute_I1()
@@ -779,8 +780,9 @@ class HolzapfelOgden(_HyperElastic):
         K = self.K
         Mu1 = self.Mu1
         Mu2 = self.Mu2
-        T1 = self.T1
-        T2 = self.T2
+        # (unit vectors: the attributes can be assigned after the construction)
+        T1 = Normalize(self.T1)
+        T2 = Normalize(self.T2)
         ks = self.__ks
 
         I1 = hyperElasticState.Compute_I1()
@@ -843,8 +845,9 @@ class HolzapfelOgden(_HyperElastic):
         K = self.K
         Mu1 = self.Mu1
         Mu2 = self.Mu2
-        T1 = self.T1
-        T2 = self.T2
+        # (unit vectors: the attributes can be assigned after the construction)
+        T1 = Normalize(self.T1)
+        T2 = Normalize(self.T2)
         ks = self.__ks
 
         I1 = hyperElasticState.Compute_I1()
